@@ -22,6 +22,8 @@ def mk(it, item):
     kw = {"compute_early": True} if early else {}
     if cls == "Partial":
         return it.call(cref(model, cls), [e, extra], kw)
+    if cls == "Partial(Variable object)":
+        return it.call(cref(model, "Partial"), [e, build(it, ("Variable", extra), {})], kw)
     if cls == "LocatedDifferential":
         if early:      # the object handed out by Differential(e, compute_early=True).at(p)
             d = it.call(cref(model, "Differential"), [e], {"compute_early": True})
@@ -38,7 +40,7 @@ def spec_equal(a, b) -> bool:
     if a[0] == "point":
         return a[1] == b[1]
     (c1, t1, x1, _e1), (c2, t2, x2, _e2) = a[1], b[1]
-    return c1 == c2 and tree_equal(t1, t2) and x1 == x2
+    return c1.split("(")[0] == c2.split("(")[0] and tree_equal(t1, t2) and x1 == x2
 
 
 def row_case(args):
@@ -170,6 +172,7 @@ def check(rep):
             items.append(("deriv", ("Differential", t, None, early)))
             items.append(("deriv", ("Partial", t, "x", early)))
             items.append(("deriv", ("Partial", t, "y", early)))
+            items.append(("deriv", ("Partial(Variable object)", t, "x", early)))
         items.append(("deriv", ("LocatedDifferential", t, {"x": 1, "y": 2}, False)))
         items.append(("deriv", ("LocatedDifferential", t, {"y": 2, "x": 1}, False)))
         items.append(("deriv", ("LocatedDifferential", t, {"x": 1, "y": 3}, False)))
